@@ -249,7 +249,7 @@ def _check_eg(case):
         return mk("EG:raises", f"fit/_pmf_predict raised {type(ex).__name__}: {str(ex)[:150]}", {})
     ids = [t for t in eg.weights_.index]
     w = {t: float(eg.weights_.loc[t]) for t in ids}
-    if sorted(ids) != list(range(len(eg.predictors_))) or any(v < -1e-12 for v in w.values()) or abs(math.fsum(w.values()) - 1) > 1e-9:
+    if sorted(ids) != list(range(len(eg.predictors_))) or any(v < -1e-7 for v in w.values()) or abs(math.fsum(w.values()) - 1) > 1e-7:          # 1e-7 = primal feasibility tolerance of the HiGHS LP solver that produces weights_
         return mk("EG:weights:not-a-distribution-over-predictors", f"weights_ index {ids} values {list(w.values())} for {len(eg.predictors_)} predictors", {})
     H = {t: np.asarray(eg.predictors_[t].predict(Xq), dtype=float) for t in ids}          # outputs of the stored predictors, by id
     unsorted = ids != sorted(ids) and len({round(v, 12) for v in w.values()}) > 1
